@@ -27,11 +27,18 @@ XSD = (f'<xs:schema xmlns:xs="{cm.XS}" targetNamespace="{T}" xmlns:t="{T}" eleme
        '<xs:element name="note" type="xs:int"/><xs:element name="qty" type="xs:boolean"/>'
        '</xs:schema>')
 
+# XSD 1.1 variant: the root carries an INHERITABLE attribute (inherited by every descendant for conditional type
+# assignment; it has no influence on validity: spec/Validator.tla applies unchanged)
+XSD11 = XSD.replace('maxOccurs="unbounded"/></xs:sequence></xs:complexType></xs:element>',
+                    'maxOccurs="unbounded"/></xs:sequence><xs:attribute name="lang" type="xs:string" '
+                    'inheritable="true"/></xs:complexType></xs:element>', 1)
+assert XSD11 != XSD
+
 TEXT = {"ext": {"ok": "e"}, "title": {"ok": "abc"}, "qty": {"ok": "5", "bad": "x"}, "note": {"ok": "n"}}
 ATTR = {"id": {"ok": "7", "bad": "x"}, "flag": {"ok": "true", "bad": "maybe"}, "bogus": {"ok": "1"}}
 
 
-def render(nodes, prefix="t", default_ns=False):
+def render(nodes, prefix="t", default_ns=False, root_attrs=""):
     """Flat node list (document order, paths) -> XML text."""
     out, stack = [], []
     pfx = "" if default_ns else prefix + ":"
@@ -42,7 +49,7 @@ def render(nodes, prefix="t", default_ns=False):
         tag = {"ext": "x:known", "unk": "x:unk"}.get(n["name"]) or pfx + n["name"]
         at = "".join(f' {a}="{ATTR[a][v]}"' for a, v in sorted(map(tuple, n["attrs"])))
         if depth == 0:
-            at = (f' xmlns="{T}"' if default_ns else f' xmlns:{prefix}="{T}"') + f' xmlns:x="{X}"' + at
+            at = (f' xmlns="{T}"' if default_ns else f' xmlns:{prefix}="{T}"') + f' xmlns:x="{X}"' + root_attrs + at
         out.append(f"<{tag}{at}>")
         stack.append(tag)
         if n["text"] == "stray":
